@@ -25,10 +25,15 @@ class Body(Task):
             fp.write(f"begin {self.idx} {os.getpid()}\n")
         x = 0
         for i in range(self.steps):
-            x += i
-            if self.partial:
-                with open(Path.cwd() / "partial.out", "a") as fp:
-                    fp.write(f"{i}\n")
+            # (a body may protect an optional step: a termination request that arrives there must still
+            # end the job as failed)
+            try:
+                x += i
+                if self.partial:
+                    with open(Path.cwd() / "partial.out", "a") as fp:
+                        fp.write(f"{i}\n")
+            except Exception:
+                x -= 1
         if self.fork:
             pid = os.fork()
             if pid == 0:
